@@ -174,6 +174,68 @@ fn raw_queue(e: &'static Engine, off: usize, pre: usize, pushes: usize, consumer
     e.note(&format!("consumers={} left={}", fmt_list(&res), fmt_list(&left)));
 }
 
+/// ABA on a recycled block (recycle allocator): a stealer is stalled between its head/tail snapshot and its CAS while
+/// the owner runs two blocks of push/pop, so that a freed block comes back at the same address with the same slot index
+fn aba(e: &'static Engine) {
+    let (steal, mut local) = spmc::local::<Tracked>();
+    let mut next = 1u32;
+    let mut pushed = vec![];
+    let mut push = |local: &mut spmc::Local<Tracked>, pushed: &mut Vec<u32>| {
+        // ids beyond the tracked range are folded: only exactly-once per id class matters here
+        local.push_back(Tracked::new(next % 200));
+        pushed.push(next);
+        next += 1;
+    };
+    for _ in 0..3 {
+        push(&mut local, &mut pushed);
+    }
+    let got: Arc<Mutex<Vec<u32>>> = Arc::new(Mutex::new(vec![]));
+    let g2 = got.clone();
+    e.begin();
+    e.spawn("stealer", move || {
+        let (_s2, mut mine) = spmc::local::<Tracked>();
+        let mut v = vec![];
+        if let Some(t) = steal.steal_into(&mut mine) {
+            v.push(t.id());
+        }
+        while let Some(t) = mine.pop() {
+            v.push(t.id());
+        }
+        g2.lock().unwrap().extend(v);
+    });
+    let mut mine = vec![];
+    for _ in 3..B {
+        push(&mut local, &mut pushed);
+    }
+    for _ in 0..B {
+        if let Some(t) = local.pop() {
+            mine.push(t.id());
+        }
+    }
+    for _ in 0..B {
+        push(&mut local, &mut pushed);
+    }
+    for _ in 0..B {
+        if let Some(t) = local.pop() {
+            mine.push(t.id());
+        }
+    }
+    push(&mut local, &mut pushed);
+    e.join_all();
+    while let Some(t) = local.pop() {
+        mine.push(t.id());
+    }
+    let mut all = mine.clone();
+    all.extend(got.lock().unwrap().iter().cloned());
+    all.sort();
+    let mut want: Vec<u32> = pushed.iter().map(|x| x % 200).collect();
+    want.sort();
+    if all != want {
+        e.fail("exactly_once", &format!("pushed {} tasks, obtained {}: lost or duplicated", want.len(), all.len()));
+    }
+    e.note(&format!("owner={} stealer={}", mine.len(), got.lock().unwrap().len()));
+}
+
 fn mk_ls(off: usize, pre: usize, owner: &'static str, stealers: usize, steals: usize) -> Scenario {
     Scenario::new(
         "C04",
@@ -213,6 +275,8 @@ pub fn build(quick: bool) -> Vec<Scenario> {
         v.push(mk_raw(off, 3, 0, &["B", "P"]).bound(d));
     }
     if !quick {
+        // the owner's long run costs choice points, not deviations
+        v.push(Scenario::new("C04", "aba", "aba.recycle.stalled_stealer", Arc::new(aba)).fine().post_points(false).alloc(alloc::RECYCLE).bound(2).shards(12).horizon(8_000));
         for off in [B - 2, B - 1] {
             v.push(mk_ls(off, 4, "OUOU", 2, 1).bound(2));
             v.push(mk_ls(off, 2, "OO", 1, 1).bound(4));
